@@ -4,7 +4,7 @@ import Okane.Lemmas.C05ImagePosting
 
 `transaction_image`: the header (date, effective date, clear mark, code, payee), its metadata and its postings.
 The payee is where the hypothesis `parensClosed` is used: with no `)` anywhere later in the text `paren_str` fails, a
-text `(abc` becomes the payee, and `wfPayee` does not admit a payee that begins with `(`.
+text `(abc` becomes the payee, and `wfPayee` does not accept a payee that begins with `(`.
 -/
 set_option linter.unusedSimpArgs false
 set_option linter.unusedVariables false
